@@ -169,6 +169,66 @@ def c14_total_histories(r, seed, tier, model_ok):
     r.slice("file_total_histories", len(cases), len({c[0] for c in cases}), [cases[0][0], cases[1][0]], dict(dist, refused_steps=refused),
             "op histories incl. refused operations, closes and operations after a close x 6 modes on real files, every step under a reject handler; compared: every value / errno + final bytes vs FilesTotal.xhistory", bad[:40])
 
+def c14_in_model(r, seed, tier, model_ok):
+    """the SAME file programs through the main model (run_main_fs: values, actions, the executor, the world with a disk and handles - FileIO.v) and
+    through the interpreter on real files: permitted histories, histories with refused operations and closes, opening missing files, two files
+    at once, a file action as a value (compared, discarded, executed twice) - printed result, output and the final bytes of every file"""
+    if not model_ok: return
+    R = random.Random(seed * 7919 + 0xC14 + 9); n = N(tier, 300, 6000)
+    d = scratch("c14m"); cwd = os.getcwd(); os.chdir(d); cases = []; dist = collections.Counter()
+    def rnd_ops(total):
+        ops = []
+        for _ in range(R.randrange(1, 10)):
+            k = R.choice(["read", "read", "write", "write", "tell", "seekset", "seekcur", "trunc", "truncn"] + (["close", "seek"] if total else []))
+            if k == "read": ops.append(("read", R.choice([-1, 0, 1, 3, 100] + ([-2, -5] if total else []))))
+            elif k == "write": ops.append(("write", bytes(R.randrange(256) for _ in range(R.randrange(0 if total else 1, 5)))))
+            elif k in ("tell", "trunc", "close"): ops.append((k,))
+            elif k in ("seek", "seekset"): ops.append((k, R.choice([0, 1, 5, 30] + ([-1, -7] if total else []))))
+            elif k == "seekcur": ops.append((k, R.choice([0, 1, 4] + ([-1, -3, -50] if total else []))))
+            else: ops.append(("truncn", R.choice([0, 2, 10, 40] + ([-1] if total else []))))
+        return ops
+    try:
+        for trial in range(n):
+            mode = R.choice(list(MODES)); init = R.choice([None, b"", bytes(R.randrange(256) for _ in range(R.randrange(1, 20)))])
+            fn = f"m{trial}"; total = R.random() < .5; kind = R.random()
+            can_r = mode in ("rb", "r+b", "w+b", "a+b"); can_w = mode != "rb"
+            ops = rnd_ops(total)
+            if not total: ops = [o for o in ops if (o[0] != "read" or can_r) and (o[0] not in ("write", "trunc", "truncn") or can_w)] or [("tell",)]
+            files = {fn: init}
+            if kind < .75: prog = (file_program_total if total else file_program)(fn, mode, ops); shape = "history-total" if total else "history"
+            elif kind < .85:      # a second file open at the same time: what is written to one never shows in the other
+                fn2 = fn + "b"; files[fn2] = b"xyz"
+                prog = f"({st(fn)} {MODES[mode]} ㄱㄴㅎㄷ) (({st(fn2)} ㄹㅈㄹ ㄱㄴㅎㄷ) ((({by(b'Q')} ㅈㄹ ㄱㅇㄱ ㅎㄷ) (((ㄴㄱ ㄹ ㄱㅇㄷ ㅎㄷ) ㄱㅅ (ㄱㅇㄱ ㄱㅅㅎㄴ ㅎ) ㄱㄹㅎㄹ) ㅎ) ㄱㄹㅎㄷ) ㅎ) ㄱㄹㅎㄷ ㅎ) ㄱㄹㅎㄷ"; shape = "two-files"
+            elif kind < .93:      # an action VALUE on a handle: compared with itself and with another command, built and discarded, executed twice
+                prog = f"({st(fn)} {MODES[mode]} ㄱㄴㅎㄷ) (((ㄷ ㄹ ㄱㅇㄱ ㅎㄷ) ((ㄱㅇㄱ ㄱㅇㄱ ㄴㅎㄷ) (ㄱㅇㄱ (ㅈ ㄱㅇㄴ ㅎㄴ) ㄴㅎㄷ) ㅁㄹㅎㄷ ㄱㅅㅎㄴ ㅎ) ㅎㄴ) ㅎ) ㄱㄹㅎㄷ" if R.random() < .5 else \
+                       f"({st(fn)} {MODES[mode]} ㄱㄴㅎㄷ) (((ㄴ ㄹ ㄱㅇㄱ ㅎㄷ) ((ㄱㅇㄱ) ((ㄱㅇㄴ) ((ㄱㅇㄱ ㄱㅇㄴ ㅁㄹㅎㄷ) ㄱㅅㅎㄴ ㅎ) ㄱㄹㅎㄷ ㅎ) ㄱㅅ ㄱㄹㅎㄹ ㅎ) ㅎㄴ) ㅎ) ㄱㄹㅎㄷ"; shape = "action-value"
+            else: prog = f"({st(fn)} {MODES[mode]} ㄱㄴㅎㄷ) (ㄱㅇㄱ ㄱㅅㅎㄴ ㅎ) (ㄱㅇㄱ ㄱㅅㅎㄴ ㅎ) ㄱㄹㅎㄹ"; shape = "open-only"          # the handle itself (its printed form) or the open failure as a value
+            for f_, c_ in files.items():
+                if c_ is not None: open(f_, "wb").write(c_)
+            got, out = run_main(prog)
+            disk = {f_: (open(f_, "rb").read() if os.path.exists(f_) else None) for f_ in files}
+            for f_ in files:
+                if os.path.exists(f_): os.remove(f_)
+            dk = ";".join(vlib.cps(f_) + "=" + dots(c_) for f_, c_ in files.items() if c_ is not None) or "-"
+            cases.append((f"FS\t{dk}\t-\t{vlib.cps(prog)}", got, out, disk, prog, mode, ops if kind < .75 else shape)); dist[shape] += 1; dist["mode:" + mode] += 1
+    finally:
+        os.chdir(cwd); shutil.rmtree(d, ignore_errors=True)
+    mo = vlib.driver("driver", [c[0] for c in cases]); bad = []; cmp_ = collections.Counter()
+    for (line, got, out, disk, prog, mode, what), m in zip(cases, mo):
+        if m.startswith("UNMODELLED") or m == "SKIP" or m.startswith("FUEL") or m.startswith("DRIVERFAIL"): cmp_["skipped:" + m.split()[0]] += 1; continue
+        mres, mout, mdisk = m.split("\t")
+        mres = vlib.decode_v(mres); md = {}
+        for ent in mdisk[5:].split(";"):
+            if ent:
+                nm, bs = ent.split("="); md["".join(chr(int(x)) for x in nm.split(","))] = bytes(int(x) for x in bs.split(".")) if bs != "e" else b""
+        want_disk = {f_: md.get(f_) for f_ in disk}
+        g_ = got if not got.startswith("E ") else got          # class codes (and errno) only: run_main reports no spans
+        cmp_[mres.split()[0]] += 1
+        if g_ != mres.split(" @")[0] or disk != want_disk or ("OUT " + ",".join(str(ord(c)) for c in out)) != mout:
+            bad.append(dict(program=prog, history=f"{mode} {what}", impl=f"{got} disk={disk!r}"[:400], model=f"{mres} disk={want_disk!r}"[:400], which=["values" if g_ != mres.split(' @')[0] else "disk"]))
+    r.slice("files_in_the_main_model", len(cases), len({c[4] for c in cases}), [cases[0][4][:200]], dict(dist, **{"compared:" + k: v for k, v in cmp_.items()}),
+            "file programs (permitted and total histories x 6 modes, two files at once, file actions as values, open failures) through run_main_fs of the main model vs the interpreter on real files: printed result, output, final bytes of every file", bad[:40])
+
 def c14_faults(r, seed, tier, model_ok):
     """operations the mode forbids, operations on a closed handle, bad offsets and sizes: each must end in a language-level exception (or a
     value) and must not change the bytes on disk unless it is a permitted write"""
